@@ -180,7 +180,11 @@ def r17_4_wiring(ctx):
     B = Blocks()
     g, r, l1, l2 = _slot("global", 400, False), _slot("reserved-local", 9, True), _slot("local-main", 401, False), _slot("local-sub", 402, False)
     sub = Sym("sub")
-    prog, _ = _program(OpS, B, {None: [g, r, l1], sub: [g, l2]})
+    sub_fp = Sym("sub-with-proto")
+    l3 = _slot("local-fp-sub", 403, False)
+    prog, _ = _program(OpS, B, {None: [g, r, l1], sub: [g, l2], sub_fp: [l3]})
+    # a frame-pointer routine starts with proto; its scratch variables are checked like any other routine's
+    prog[sub_fp].attrs["ops"].insert(0, mkop(OpS, "proto", 1, 0))
     # the index of a routine-local variable is taken (x.index(), a by-reference argument): it stays routine-local
     for key, sl in ((None, l1), (sub, l2)):
         o = mkop(OpS, "int", sl)
@@ -197,7 +201,7 @@ def r17_4_wiring(ctx):
         raise Unknown()
 
     run_function(f.node, {"subroutineBlocks": prog}, make_oracle(OpS, B, extra), f.fq, resolver=lambda nm: css.node if nm == "collectScratchSlots" else None)
-    ctx.check(set(captured) == {None, sub}, "R17.4", "assign:every-routine-checked", f"validateSlots was run for {sorted(map(repr, captured))}; every routine must be checked", f.where, fact={})
+    ctx.check(set(captured) == {None, sub, sub_fp}, "R17.4", "assign:every-routine-checked", f"validateSlots was run for {sorted(map(repr, captured))}; every routine must be checked", f.where, fact={})
     for key, s in captured.items():
         ctx.check(s == {g}, "R17.4", f"assign:initial-set[{key!r}]", f"routine {key!r} is checked with {sorted(x.name for x in (s or []))} assumed initialised; exactly the slots shared between routines may be assumed (a routine-local slot with a requested id is still routine-local)", f.where, fact={"assumed": sorted(x.name for x in (s or []))})
     # whatever else _compile_impl hands to the allocator must not widen the assumed-initialised set
@@ -228,11 +232,45 @@ def r17_4_wiring(ctx):
     ctx.require_min("R17.4", 6)
 
 
+def r17_5_exhaustive_walk(ctx):
+    ctx.rule("R17.5", "the definite-assignment walk is exhaustive: validateSlots leaves its exploration only when nothing is left to explore - no break out of the walk, no return from inside it, no bound on the number of states (a program with many conditionally written variables has many states; cutting the walk short accepts whatever lies beyond the cut)")
+    f = ctx.model.find_func("TealBlock.validateSlots", "pyteal.ir.tealblock")
+    ctx.analysed(f.fq)
+    loops = [n for n in walk_local(f.node) if isinstance(n, (ast.While, ast.For))]
+    outer = [l for l in loops if not any(isinstance(a, (ast.While, ast.For)) for a in q.ancestors(l) if a is not l)]
+    recursive = bool(q.calls_named(f.node, "validateSlots", into_nested=False))
+    q.need(outer or recursive, f"{f.fq}: neither a walk loop nor recursion found")
+    problems = []
+    for loop in outer:
+        if not isinstance(loop, ast.While):
+            continue  # the per-op / per-successor for loops of a recursive formulation
+        for n in ast.walk(loop):
+            if isinstance(n, ast.Break):
+                nearest = next((a for a in q.ancestors(n) if isinstance(a, (ast.While, ast.For))), None)
+                if nearest is loop:
+                    problems.append(f"`break` at line {n.lineno} (under {[g for g, _p in q.guards(n)][-1:]}) leaves the walk with states unexplored")
+            if isinstance(n, ast.Return):
+                problems.append(f"`return` at line {n.lineno} inside the walk")
+        # the loop condition is the emptiness of the worklist only
+        names = {x.id for x in ast.walk(loop.test) if isinstance(x, ast.Name)}
+        if isinstance(loop.test, ast.BoolOp) or any(isinstance(x, ast.Compare) and not (isinstance(x.left, ast.Call) and u(x.left.func) == "len") for x in ast.walk(loop.test)):
+            problems.append(f"the walk continues only while `{u(loop.test)}`: a further condition can end it early")
+    if recursive:
+        # recursive formulation: every successor is visited unless its state was seen (the only `continue` guard)
+        for n in walk_local(f.node):
+            if isinstance(n, (ast.Break,)):
+                problems.append(f"`break` at line {n.lineno}")
+    ctx.check(not problems, "R17.5", "validateSlots:exhaustive", "; ".join(problems[:2]), f.where, fact={"loops": len(outer), "recursive": recursive})
+    ctx.require_min("R17.5", 1)
+
+
 def run(ctx):
     from rules import c11 as _c11
 
     _c11.r11_1_inventory(ctx, only_under="pyteal/compiler")  # the check is made for every compilation: no process-wide memo of "already checked" in the compiler passes (shared with C11)
     _c11.r11_1_inventory(ctx, only_under="pyteal/ir")
+    _c11.r11_8_object_state_inventory(ctx)  # the error names the expression that performs the offending load: load expressions are built per call site, never memoised on the variable / value object (shared with C11)
+    r17_5_exhaustive_walk(ctx)
     r17_1_walk(ctx)
     r17_4_wiring(ctx)
     return (
